@@ -1492,4 +1492,839 @@ theorem run?_append (s : State) : ∀ (a b : List Event), run? s (a ++ b) = (run
     | some s1 => exact run?_append s1 a b
 
 
+/-! ## sole holders: consequences of `Inv.place` used by the refinement proof -/
+
+theorem of_cntEx_zero {α : Type} (f : Nat → α) (p : α → Bool) (i : Nat) :
+    ∀ n : Nat, cntEx f p i n = 0 → ∀ k, k < n → k ≠ i → p (f k) = false
+  | 0, _, k, hk, _ => by omega
+  | n + 1, h, k, hk, hne => by
+    rw [cntEx] at h
+    by_cases hkn : k = n
+    · subst hkn
+      rw [if_neg hne] at h
+      cases hp : p (f k)
+      · rfl
+      · rw [hp] at h; simp at h
+    · exact of_cntEx_zero f p i n (by omega) k (by omega) hne
+
+structure Sole (s : State) (j : Nat) (exceptD : Option Nat) (exceptW : Option Nat) (q : List (Nat × Nat)) : Prop where
+  disp : ∀ d, d < s.nd → some d ≠ exceptD → DState.holds j (s.disp d) = false
+  wrk : ∀ w, w < s.nw → some w ≠ exceptW → WState.holds j (s.wrk w) = false
+  sendq : ∀ x, x ∈ q → x.2 ≠ j
+
+theorem countP_zero_mem {α : Type} {p : α → Bool} {l : List α} (h : l.countP p = 0) : ∀ x, x ∈ l → p x = false := by
+  intro x hx
+  cases hp : p x
+  · rfl
+  · have := List.countP_pos_iff.mpr ⟨x, hx, hp⟩; omega
+
+/-- the job held by dispatcher `d` is nowhere else -/
+theorem sole_of_disp {s : State} (hI : Inv s) {d j : Nat} (hd : d < s.nd) (hh : DState.holds j (s.disp d) = true) :
+    Sole s j (some d) none s.sendq := by
+  have hp := hI.place j
+  unfold holders at hp
+  rw [cnt_split _ _ hd, hh] at hp
+  have h1 : cntEx s.disp (DState.holds j) d s.nd = 0 := by split at hp <;> simp at hp <;> omega
+  have h2 : s.sendq.countP (fun e => e.2 == j) = 0 := by split at hp <;> simp at hp <;> omega
+  have h3 : cnt s.wrk (WState.holds j) s.nw = 0 := by split at hp <;> simp at hp <;> omega
+  refine ⟨?_, ?_, ?_⟩
+  · intro d' hd' hne
+    exact of_cntEx_zero _ _ _ _ h1 d' hd' (by intro he; subst he; exact hne rfl)
+  · intro w hw _
+    exact of_cnt_zero _ _ h3 hw
+  · intro x hx he
+    have := countP_zero_mem h2 x hx
+    simp [he] at this
+
+/-- the job held by worker `w` is nowhere else -/
+theorem sole_of_wrk {s : State} (hI : Inv s) {w j : Nat} (hw : w < s.nw) (hh : WState.holds j (s.wrk w) = true) :
+    Sole s j none (some w) s.sendq := by
+  have hp := hI.place j
+  unfold holders at hp
+  rw [cnt_split s.wrk _ hw, hh] at hp
+  have h1 : cnt s.disp (DState.holds j) s.nd = 0 := by split at hp <;> simp at hp <;> omega
+  have h2 : s.sendq.countP (fun e => e.2 == j) = 0 := by split at hp <;> simp at hp <;> omega
+  have h3 : cntEx s.wrk (WState.holds j) w s.nw = 0 := by split at hp <;> simp at hp <;> omega
+  refine ⟨?_, ?_, ?_⟩
+  · intro d' hd' _
+    exact of_cnt_zero _ _ h1 hd'
+  · intro w' hw' hne
+    exact of_cntEx_zero _ _ _ _ h3 w' hw' (by intro he; subst he; exact hne rfl)
+  · intro x hx he
+    have := countP_zero_mem h2 x hx
+    simp [he] at this
+
+/-- the job at the head of the `sending` queue is nowhere else -/
+theorem sole_of_sendq {s : State} (hI : Inv s) {d j : Nat} {rest : List (Nat × Nat)} (hq : s.sendq = (d, j) :: rest) :
+    Sole s j none none rest := by
+  have hp := hI.place j
+  unfold holders at hp
+  rw [hq, List.countP_cons] at hp
+  simp only [beq_self_eq_true, if_true] at hp
+  have h1 : cnt s.disp (DState.holds j) s.nd = 0 := by split at hp <;> omega
+  have h2 : rest.countP (fun e => e.2 == j) = 0 := by split at hp <;> omega
+  have h3 : cnt s.wrk (WState.holds j) s.nw = 0 := by split at hp <;> omega
+  refine ⟨?_, ?_, ?_⟩
+  · intro d' hd' _
+    exact of_cnt_zero _ _ h1 hd'
+  · intro w' hw' _
+    exact of_cnt_zero _ _ h3 hw'
+  · intro x hx he
+    have := countP_zero_mem h2 x hx
+    simp [he] at this
+
+/-- a job not yet submitted is nowhere -/
+theorem sole_of_fresh {s : State} (hI : Inv s) {j : Nat} (hj : s.njobs ≤ j) : Sole s j none none s.sendq := by
+  have hp := hI.place j
+  unfold holders at hp
+  rw [if_neg (by omega)] at hp
+  refine ⟨?_, ?_, ?_⟩
+  · intro d' hd' _
+    exact of_cnt_zero _ _ (by omega) hd'
+  · intro w' hw' _
+    exact of_cnt_zero _ _ (by omega) hw'
+  · intro x hx he
+    have := countP_zero_mem (show s.sendq.countP (fun e => e.2 == j) = 0 by omega) x hx
+    simp [he] at this
+
+
+open Spec
+
+/-! ## the model refines the trace acceptor -/
+
+def WState.holdsAny : WState → Bool
+  | .handed _ => true
+  | .running _ => true
+  | _ => false
+
+/-- inside a `dispatch` call -/
+def DState.inCall : DState → Bool
+  | .idle => false
+  | .refused _ => false
+  | .panicked _ => false
+  | _ => true
+
+/-- what the acceptor knows about the job held by dispatcher `d` -/
+def DOK (t : SState) (d : Nat) : DState → Prop
+  | .idle => t.dcur d = none
+  | .blocked => True
+  | .trying j => t.dcur d = some j ∧ t.phase j = .inCall d ∧ t.run j = .notRun
+  | .full j => t.dcur d = some j ∧ t.phase j = .inCall d ∧ t.run j = .notRun
+  | .spawning j => t.dcur d = some j ∧ t.phase j = .inCall d ∧ t.run j = .notRun
+  | .sending j => t.dcur d = some j ∧ t.phase j = .inCall d ∧ t.run j = .notRun
+  | .refused j => t.dcur d = none ∧ t.phase j = .busy d ∧ t.run j = .notRun
+  | .panicked j => t.dcur d = none ∧ t.phase j = .dropped ∧ t.run j = .notRun
+
+def QOK (t : SState) (x : Nat × Nat) : Prop :=
+  t.dcur x.1 = some x.2 ∧ t.phase x.2 = .inCall x.1 ∧ t.run x.2 = .notRun
+
+def WOK (t : SState) (w : Nat) : WState → Prop
+  | .handed j => t.phase j = .ok ∧ t.run j = .notRun ∧ t.wjob w = none
+  | .running j => t.run j = .running w ∧ t.wjob w = some j
+  | _ => t.wjob w = none
+
+/-- the simulation relation between a model state and an acceptor state -/
+structure Sim (s : State) (t : SState) : Prop where
+  limit : t.limit = s.limit
+  dok : ∀ d, d < s.nd → DOK t d (s.disp d)
+  qok : ∀ x, x ∈ s.sendq → QOK t x
+  wok : ∀ w, w < s.nw → WOK t w (s.wrk w)
+  wfree : ∀ w, s.nw ≤ w → t.wjob w = none
+  fresh : ∀ j, s.njobs ≤ j → t.phase j = .fresh ∧ t.run j = .notRun
+  okc : t.okCount = cnt s.wrk WState.holdsAny s.nw + s.completed.length + s.delivered.length + s.crashed.length
+  inc : t.inCalls = cnt s.disp DState.inCall s.nd
+  nwb : s.nw ≤ t.okCount + cnt s.disp DState.isSending s.nd + cnt s.disp DState.isBlocked s.nd
+
+theorem DOK_frame {t t' : SState} {d : Nat} {ds : DState} (h : DOK t d ds) (hd : t'.dcur d = t.dcur d)
+    (hj : ∀ j, DState.holds j ds = true → t'.phase j = t.phase j ∧ t'.run j = t.run j) : DOK t' d ds := by
+  cases ds with
+  | idle => exact hd.trans h
+  | blocked => trivial
+  | trying j => obtain ⟨a, b⟩ := hj j (by simp [DState.holds]); exact ⟨hd.trans h.1, a.trans h.2.1, b.trans h.2.2⟩
+  | full j => obtain ⟨a, b⟩ := hj j (by simp [DState.holds]); exact ⟨hd.trans h.1, a.trans h.2.1, b.trans h.2.2⟩
+  | spawning j => obtain ⟨a, b⟩ := hj j (by simp [DState.holds]); exact ⟨hd.trans h.1, a.trans h.2.1, b.trans h.2.2⟩
+  | sending j => obtain ⟨a, b⟩ := hj j (by simp [DState.holds]); exact ⟨hd.trans h.1, a.trans h.2.1, b.trans h.2.2⟩
+  | refused j => obtain ⟨a, b⟩ := hj j (by simp [DState.holds]); exact ⟨hd.trans h.1, a.trans h.2.1, b.trans h.2.2⟩
+  | panicked j => obtain ⟨a, b⟩ := hj j (by simp [DState.holds]); exact ⟨hd.trans h.1, a.trans h.2.1, b.trans h.2.2⟩
+
+theorem WOK_frame {t t' : SState} {w : Nat} {ws : WState} (h : WOK t w ws) (hw : t'.wjob w = t.wjob w)
+    (hj : ∀ j, WState.holds j ws = true → t'.phase j = t.phase j ∧ t'.run j = t.run j) : WOK t' w ws := by
+  cases ws with
+  | handed j => obtain ⟨a, b⟩ := hj j (by simp [WState.holds]); exact ⟨a.trans h.1, b.trans h.2.1, hw.trans h.2.2⟩
+  | running j => obtain ⟨_, b⟩ := hj j (by simp [WState.holds]); exact ⟨b.trans h.1, hw.trans h.2⟩
+  | starting => exact hw.trans h
+  | ready => exact hw.trans h
+  | parked => exact hw.trans h
+  | leaving => exact hw.trans h
+  | exited => exact hw.trans h
+
+theorem QOK_frame {t t' : SState} {x : Nat × Nat} (h : QOK t x) (hd : t'.dcur x.1 = t.dcur x.1)
+    (hj : t'.phase x.2 = t.phase x.2 ∧ t'.run x.2 = t.run x.2) : QOK t' x :=
+  ⟨hd.trans h.1, hj.1.trans h.2.1, hj.2.trans h.2.2⟩
+
+/-- All places other than the updated dispatcher `uD` / worker `uW` keep their clauses when the acceptor
+changes only job `j` (which they do not hold), `dcur uD` and `wjob uW`. -/
+theorem sim_others {s : State} {t t' : SState} (hS : Sim s t) {j : Nat} {uD uW : Option Nat} {q : List (Nat × Nat)}
+    (hsole : Sole s j uD uW q)
+    (hq : ∀ x, x ∈ q → x ∈ s.sendq ∧ some x.1 ≠ uD)
+    (hph : ∀ j', j' ≠ j → t'.phase j' = t.phase j' ∧ t'.run j' = t.run j')
+    (hdc : ∀ d', some d' ≠ uD → t'.dcur d' = t.dcur d')
+    (hwj : ∀ w', some w' ≠ uW → t'.wjob w' = t.wjob w') :
+    (∀ d', d' < s.nd → some d' ≠ uD → DOK t' d' (s.disp d')) ∧ (∀ x, x ∈ q → QOK t' x) ∧
+    (∀ w', w' < s.nw → some w' ≠ uW → WOK t' w' (s.wrk w')) ∧ (∀ w', s.nw ≤ w' → some w' ≠ uW → t'.wjob w' = none) ∧
+    (∀ j', s.njobs ≤ j' → j' ≠ j → t'.phase j' = .fresh ∧ t'.run j' = .notRun) := by
+  refine ⟨?_, ?_, ?_, ?_, ?_⟩
+  · intro d' hd' hne
+    refine DOK_frame (hS.dok d' hd') (hdc d' hne) ?_
+    intro j' hj'
+    exact hph j' (by intro he; subst he; rw [hsole.disp d' hd' hne] at hj'; cases hj')
+  · intro x hx
+    obtain ⟨hm, hne⟩ := hq x hx
+    exact QOK_frame (hS.qok x hm) (hdc x.1 hne) (hph x.2 (hsole.sendq x hx))
+  · intro w' hw' hne
+    refine WOK_frame (hS.wok w' hw') (hwj w' hne) ?_
+    intro j' hj'
+    exact hph j' (by intro he; subst he; rw [hsole.wrk w' hw' hne] at hj'; cases hj')
+  · intro w' hw' hne
+    exact (hwj w' hne).trans (hS.wfree w' hw')
+  · intro j' hj' hne
+    obtain ⟨a, b⟩ := hph j' hne
+    obtain ⟨c, d⟩ := hS.fresh j' hj'
+    exact ⟨a.trans c, b.trans d⟩
+
+theorem Sole.weakenD {s : State} {j : Nat} {eW : Option Nat} {q : List (Nat × Nat)} (h : Sole s j none eW q) (d : Nat) :
+    Sole s j (some d) eW q := ⟨fun d' hd' _ => h.disp d' hd' (by simp), h.wrk, h.sendq⟩
+
+theorem Sole.weakenW {s : State} {j : Nat} {eD : Option Nat} {q : List (Nat × Nat)} (h : Sole s j eD none q) (w : Nat) :
+    Sole s j eD (some w) q := ⟨h.disp, fun w' hw' _ => h.wrk w' hw' (by simp), h.sendq⟩
+
+theorem Sole.subq {s : State} {j : Nat} {eD eW : Option Nat} {q q' : List (Nat × Nat)} (h : Sole s j eD eW q)
+    (hs : ∀ x, x ∈ q' → x ∈ q) : Sole s j eD eW q' := ⟨h.disp, h.wrk, fun x hx => h.sendq x (hs x hx)⟩
+
+
+abbrev tCall (t : SState) (d j : Nat) : SState :=
+  { t with phase := upd t.phase j (.inCall d), dcur := upd t.dcur d (some j),
+           inCalls := t.inCalls + 1, seen := max t.seen (j + 1) }
+abbrev tRetOk (t : SState) (d j : Nat) : SState :=
+  { t with phase := upd t.phase j .ok, dcur := upd t.dcur d none, inCalls := t.inCalls - 1, okCount := t.okCount + 1 }
+abbrev tBusy (t : SState) (d j : Nat) : SState :=
+  { t with phase := upd t.phase j (.busy d), dcur := upd t.dcur d none, inCalls := t.inCalls - 1 }
+abbrev tPanic (t : SState) (d j : Nat) : SState :=
+  { t with phase := upd t.phase j .dropped, dcur := upd t.dcur d none, inCalls := t.inCalls - 1 }
+abbrev tBegin (t : SState) (w j : Nat) : SState :=
+  { t with run := upd t.run j (.running w), wjob := upd t.wjob w (some j),
+           nrun := t.nrun + 1, maxrun := max t.maxrun (t.nrun + 1) }
+abbrev tFin (t : SState) (w j : Nat) : SState :=
+  { t with run := upd t.run j .finished, wjob := upd t.wjob w none, nrun := t.nrun - 1 }
+
+theorem step_call {t : SState} {d j : Nat} (h1 : t.dcur d = none) (h2 : t.phase j = .fresh ∨ t.phase j = .busy d)
+    (h3 : t.run j = .notRun) : Spec.step t (.call d j) = some (tCall t d j) := by
+  simp [Spec.step, h1, h2, h3]
+theorem step_retOk {t : SState} {d j : Nat} (h1 : t.dcur d = some j) (h2 : t.phase j = .inCall d) :
+    Spec.step t (.retOk d j) = some (tRetOk t d j) := by
+  simp [Spec.step, h1, h2]
+theorem step_retBusy {t : SState} {d j : Nat} (h1 : t.dcur d = some j) (h2 : t.phase j = .inCall d)
+    (h3 : t.run j = .notRun) (h4 : 1 ≤ t.limit) (h5 : t.limit + 1 ≤ t.okCount + t.inCalls) :
+    Spec.step t (.retBusy d j) = some (tBusy t d j) := by
+  simp [Spec.step, h1, h2, h3, h4, h5]
+theorem step_retPanic {t : SState} {d j : Nat} (h1 : t.dcur d = some j) (h2 : t.phase j = .inCall d)
+    (h3 : t.run j = .notRun) (h4 : t.limit = 0) : Spec.step t (.retPanic d j) = some (tPanic t d j) := by
+  simp [Spec.step, h1, h2, h3, h4]
+theorem step_begin {t : SState} {w j : Nat} (h1 : (t.phase j).startable = true) (h2 : t.run j = .notRun)
+    (h3 : t.wjob w = none) : Spec.step t (.begin w j) = some (tBegin t w j) := by
+  simp [Spec.step, h1, h2, h3]
+theorem step_fin {t : SState} {w j : Nat} (h1 : t.run j = .running w) (h2 : t.wjob w = some j) :
+    Spec.step t (.fin w j) = some (tFin t w j) := by
+  simp [Spec.step, h1, h2]
+
+theorem some_ne_some {a b : Nat} (h : a ≠ b) : some a ≠ some b := by intro he; exact h (Option.some.inj he)
+
+theorem sim_submit {s s' : State} {t : SState} {d : Nat} {k : Kind} (hI : Inv s) (hS : Sim s t)
+    (h : doSubmit s d k = some s') :
+    ∃ t', runObs t (obsOf s (.submit d k)) = some t' ∧ Sim s' t' := by
+  obtain ⟨hd, hj, rfl⟩ := doSubmit_some h
+  have hdok := hS.dok d hd
+  rw [hj] at hdok
+  obtain ⟨hf1, hf2⟩ := hS.fresh s.njobs (Nat.le_refl _)
+  have hstep := step_call (d := d) hdok (.inl hf1) hf2
+  refine ⟨tCall t d s.njobs, by simp [obsOf, runObs, hstep], ?_⟩
+  have hsole := (sole_of_fresh hI (Nat.le_refl s.njobs)).weakenD d
+  obtain ⟨o1, o2, o3, o4, o5⟩ := sim_others (t' := tCall t d s.njobs) (uW := none) hS hsole
+    (fun x hx => ⟨hx, by
+      intro he
+      have := (hI.sendq_blocked x.1 x.2 hx).2
+      simp only [Option.some.injEq] at he
+      rw [he, hj] at this; cases this⟩)
+    (fun j' hne => ⟨upd_ne _ _ hne, rfl⟩)
+    (fun d' hne => upd_ne _ _ (by intro he; subst he; exact hne rfl))
+    (fun w' _ => rfl)
+  refine { limit := hS.limit, dok := ?_, qok := o2, wok := fun w hw => o3 w hw (by simp),
+           wfree := fun w hw => o4 w hw (by simp), fresh := ?_, okc := hS.okc, inc := ?_, nwb := ?_ }
+  · intro d' hd'
+    by_cases he : d' = d
+    · subst he
+      show DOK _ d' (upd s.disp d' _ d')
+      rw [upd_same]
+      exact ⟨upd_same _ _ _, upd_same _ _ _, hf2⟩
+    · show DOK _ d' (upd s.disp d _ d')
+      rw [upd_ne _ _ he]
+      exact o1 d' hd' (some_ne_some he)
+  · intro j' hj'
+    exact o5 j' (by have : s.njobs + 1 ≤ j' := hj'; omega) (by have : s.njobs + 1 ≤ j' := hj'; omega)
+  · have := hS.inc
+    show t.inCalls + 1 = cnt (upd s.disp d _) DState.inCall s.nd
+    simp only [cnt_split _ _ hd, cntEx_upd, upd_same, hj, DState.inCall] at this ⊢
+    cnt_norm at this ⊢; omega
+  · have := hS.nwb
+    show s.nw ≤ t.okCount + cnt (upd s.disp d _) DState.isSending s.nd + cnt (upd s.disp d _) DState.isBlocked s.nd
+    simp only [cnt_split _ _ hd, cntEx_upd, upd_same, hj, DState.isSending, DState.isBlocked] at this ⊢
+    cnt_norm at this ⊢; omega
+
+
+/-- the fields `Sim` looks at, apart from `disp` and `wrk` -/
+def SameRest (s s' : State) : Prop :=
+  s'.limit = s.limit ∧ s'.nd = s.nd ∧ s'.sendq = s.sendq ∧ s'.nw = s.nw ∧ s'.njobs = s.njobs ∧
+  s'.completed.length = s.completed.length ∧ s'.delivered.length = s.delivered.length ∧
+  s'.crashed.length = s.crashed.length
+
+/-- a dispatcher step the observer does not see -/
+theorem sim_dispSilent {s s' : State} {t : SState} (hS : Sim s t) {d : Nat} (hd : d < s.nd) {y : DState}
+    (hdisp : s'.disp = upd s.disp d y) (hwrk : s'.wrk = s.wrk) (hr : SameRest s s')
+    (hy : DOK t d (s.disp d) → DOK t d y) (hin : DState.inCall y = DState.inCall (s.disp d))
+    (hsb : (DState.isSending (s.disp d)).toNat + (DState.isBlocked (s.disp d)).toNat
+      ≤ (DState.isSending y).toNat + (DState.isBlocked y).toNat) : Sim s' t := by
+  obtain ⟨r1, r2, r3, r4, r5, r6, r7, r8⟩ := hr
+  refine { limit := hS.limit.trans r1.symm, dok := ?_, qok := ?_, wok := ?_, wfree := ?_, fresh := ?_,
+           okc := ?_, inc := ?_, nwb := ?_ }
+  · intro d' hd'
+    rw [r2] at hd'
+    rw [hdisp]
+    by_cases he : d' = d
+    · subst he; rw [upd_same]; exact hy (hS.dok d' hd')
+    · rw [upd_ne _ _ he]; exact hS.dok d' hd'
+  · intro x hx; rw [r3] at hx; exact hS.qok x hx
+  · intro w hw; rw [r4] at hw; rw [hwrk]; exact hS.wok w hw
+  · intro w hw; rw [r4] at hw; exact hS.wfree w hw
+  · intro j hj; rw [r5] at hj; exact hS.fresh j hj
+  · rw [hwrk, r4, r6, r7, r8]; exact hS.okc
+  · have := hS.inc
+    rw [hdisp, r2]
+    simp only [cnt_split _ _ hd, cntEx_upd, upd_same, hin] at this ⊢
+    exact this
+  · have := hS.nwb
+    rw [hdisp, r2, r4]
+    simp only [cnt_split _ _ hd, cntEx_upd, upd_same] at this ⊢
+    omega
+
+/-- a worker step the observer does not see -/
+theorem sim_wrkSilent {s s' : State} {t : SState} (hS : Sim s t) {w : Nat} (hw : w < s.nw) {y : WState}
+    (hwrk : s'.wrk = upd s.wrk w y) (hdisp : s'.disp = s.disp) (hr : SameRest s s')
+    (hy : WOK t w (s.wrk w) → WOK t w y) (hh : WState.holdsAny y = WState.holdsAny (s.wrk w)) : Sim s' t := by
+  obtain ⟨r1, r2, r3, r4, r5, r6, r7, r8⟩ := hr
+  refine { limit := hS.limit.trans r1.symm, dok := ?_, qok := ?_, wok := ?_, wfree := ?_, fresh := ?_,
+           okc := ?_, inc := ?_, nwb := ?_ }
+  · intro d' hd'; rw [r2] at hd'; rw [hdisp]; exact hS.dok d' hd'
+  · intro x hx; rw [r3] at hx; exact hS.qok x hx
+  · intro w' hw'
+    rw [r4] at hw'
+    rw [hwrk]
+    by_cases he : w' = w
+    · subst he; rw [upd_same]; exact hy (hS.wok w' hw')
+    · rw [upd_ne _ _ he]; exact hS.wok w' hw'
+  · intro w' hw'; rw [r4] at hw'; exact hS.wfree w' hw'
+  · intro j hj; rw [r5] at hj; exact hS.fresh j hj
+  · have := hS.okc
+    rw [hwrk, r4, r6, r7, r8]
+    simp only [cnt_split _ _ hw, cntEx_upd, upd_same, hh] at this ⊢
+    exact this
+  · rw [hdisp, r2]; exact hS.inc
+  · rw [hdisp, r2, r4]; exact hS.nwb
+
+theorem sameRest_refl (s : State) : SameRest s s := ⟨rfl, rfl, rfl, rfl, rfl, rfl, rfl, rfl⟩
+
+/-- a job handed to the head of the waiting queue: the observer sees `dispatch` return `Ok` -/
+theorem sim_hand {s : State} {t : SState} {d w j : Nat} {rest : List Nat} {x : DState} (hI : Inv s) (hS : Sim s t)
+    (hd : d < s.nd) (hx : s.disp d = x) (hxh : DState.holds j x = true)
+    (hxd : DOK t d x → t.dcur d = some j ∧ t.phase j = .inCall d ∧ t.run j = .notRun)
+    (hxi : DState.inCall x = true) (hxb : DState.isBlocked x = false) (hw : s.waiting = w :: rest) :
+    Spec.step t (.retOk d j) = some (tRetOk t d j) ∧
+    Sim { s with disp := upd s.disp d .idle, wrk := upd s.wrk w (.handed j), waiting := rest } (tRetOk t d j) := by
+  obtain ⟨hwn, hwp⟩ := hI.wait_parked w (by simp [hw])
+  have hdok := hS.dok d hd
+  rw [hx] at hdok
+  obtain ⟨c1, c2, c3⟩ := hxd hdok
+  refine ⟨step_retOk c1 c2, ?_⟩
+  have hwok := hS.wok w hwn
+  rw [hwp] at hwok
+  have hsole := (sole_of_disp hI hd (by rw [hx]; exact hxh)).weakenW w
+  have hq : s.sendq = [] := hI.chan (by simp [hw])
+  obtain ⟨o1, o2, o3, o4, o5⟩ := sim_others (t' := tRetOk t d j) hS hsole
+    (fun x' hx' => by rw [hq] at hx'; cases hx')
+    (fun j' hne => ⟨upd_ne _ _ hne, rfl⟩)
+    (fun d' hne => upd_ne _ _ (by intro he; subst he; exact hne rfl))
+    (fun w' _ => rfl)
+  refine { limit := hS.limit, dok := ?_, qok := o2, wok := ?_, wfree := fun w' hw' => o4 w' hw' (by
+             intro he; simp only [Option.some.injEq] at he; subst he; exact absurd hwn (by have : s.nw ≤ w' := hw'; omega)),
+           fresh := ?_, okc := ?_, inc := ?_, nwb := ?_ }
+  · intro d' hd'
+    by_cases he : d' = d
+    · subst he
+      show DOK _ d' (upd s.disp d' _ d')
+      rw [upd_same]
+      exact upd_same _ _ _
+    · show DOK _ d' (upd s.disp d _ d')
+      rw [upd_ne _ _ he]
+      exact o1 d' hd' (some_ne_some he)
+  · intro w' hw'
+    by_cases he : w' = w
+    · subst he
+      show WOK _ w' (upd s.wrk w' _ w')
+      rw [upd_same]
+      exact ⟨upd_same _ _ _, c3, hwok⟩
+    · show WOK _ w' (upd s.wrk w _ w')
+      rw [upd_ne _ _ he]
+      exact o3 w' hw' (some_ne_some he)
+  · intro j' hj'
+    have hjn : j < s.njobs := by
+      have hp := hI.place j
+      have := cnt_pos s.disp (DState.holds j) hd (by rw [hx]; exact hxh)
+      unfold holders at hp
+      split at hp
+      · assumption
+      · omega
+    exact o5 j' hj' (by have : s.njobs ≤ j' := hj'; omega)
+  · have := hS.okc
+    show t.okCount + 1 = cnt (upd s.wrk w _) WState.holdsAny s.nw + _ + _ + _
+    simp only [cnt_split _ _ hwn, cntEx_upd, upd_same, hwp, WState.holdsAny] at this ⊢
+    cnt_norm at this ⊢; omega
+  · have := hS.inc
+    show t.inCalls - 1 = cnt (upd s.disp d _) DState.inCall s.nd
+    simp only [cnt_split _ _ hd, cntEx_upd, upd_same, hx, hxi] at this ⊢
+    rw [show DState.inCall DState.idle = false from rfl]
+    simp at this ⊢; omega
+  · have := hS.nwb
+    show s.nw ≤ t.okCount + 1 + cnt (upd s.disp d _) DState.isSending s.nd + cnt (upd s.disp d _) DState.isBlocked s.nd
+    simp only [cnt_split _ _ hd, cntEx_upd, upd_same, hx, hxb] at this ⊢
+    rw [show DState.isSending DState.idle = false from rfl, show DState.isBlocked DState.idle = false from rfl]
+    revert this; cases DState.isSending x <;> simp <;> omega
+
+
+theorem job_known_of_disp {s : State} (hI : Inv s) {d j : Nat} (hd : d < s.nd) (hh : DState.holds j (s.disp d) = true) :
+    j < s.njobs := by
+  have hp := hI.place j
+  have := cnt_pos s.disp (DState.holds j) hd hh
+  unfold holders at hp
+  split at hp
+  · assumption
+  · omega
+
+theorem job_known_of_wrk {s : State} (hI : Inv s) {w j : Nat} (hw : w < s.nw) (hh : WState.holds j (s.wrk w) = true) :
+    j < s.njobs := by
+  have hp := hI.place j
+  have := cnt_pos s.wrk (WState.holds j) hw hh
+  unfold holders at hp
+  split at hp
+  · assumption
+  · omega
+
+/-- the dispatcher's call ends without the job having been handed over (`Err(DispatchError(f))`, or the
+`thread_limit == 0` panic), or starts again (`retry`): only `disp d` and the acceptor's view of job `j` change -/
+theorem sim_dispObs {s : State} {t t' : SState} {d j : Nat} {y : DState} (hI : Inv s) (hS : Sim s t) (hd : d < s.nd)
+    (hh : DState.holds j (s.disp d) = true) (hnb : s.disp d ≠ .blocked)
+    (hlim : t'.limit = t.limit) (hrun : t'.run = t.run) (hwj : t'.wjob = t.wjob) (hok : t'.okCount = t.okCount)
+    (hph : ∀ j', j' ≠ j → t'.phase j' = t.phase j') (hdc : ∀ d', d' ≠ d → t'.dcur d' = t.dcur d')
+    (hy : DOK t' d y)
+    (hinc : t'.inCalls + (DState.inCall (s.disp d)).toNat = t.inCalls + (DState.inCall y).toNat)
+    (hsb : (DState.isSending (s.disp d)).toNat + (DState.isBlocked (s.disp d)).toNat
+      ≤ (DState.isSending y).toNat + (DState.isBlocked y).toNat) :
+    Sim { s with disp := upd s.disp d y } t' := by
+  have hsole := sole_of_disp hI hd hh
+  obtain ⟨o1, o2, o3, o4, o5⟩ := sim_others (t' := t') (uW := none) hS hsole
+    (fun x hx => ⟨hx, by
+      intro he
+      have := (hI.sendq_blocked x.1 x.2 hx).2
+      simp only [Option.some.injEq] at he
+      rw [he] at this; exact hnb this⟩)
+    (fun j' hne => ⟨hph j' hne, by rw [hrun]⟩)
+    (fun d' hne => hdc d' (by intro he; subst he; exact hne rfl))
+    (fun w' _ => by rw [hwj])
+  have hjn := job_known_of_disp hI hd hh
+  refine { limit := hlim.trans hS.limit, dok := ?_, qok := o2, wok := fun w hw => o3 w hw (by simp),
+           wfree := fun w hw => o4 w hw (by simp), fresh := fun j' hj' => o5 j' hj' (by have : s.njobs ≤ j' := hj'; omega),
+           okc := hok.trans hS.okc, inc := ?_, nwb := ?_ }
+  · intro d' hd'
+    by_cases he : d' = d
+    · subst he
+      show DOK _ d' (upd s.disp d' _ d')
+      rw [upd_same]; exact hy
+    · show DOK _ d' (upd s.disp d _ d')
+      rw [upd_ne _ _ he]
+      exact o1 d' hd' (some_ne_some he)
+  · have := hS.inc
+    show t'.inCalls = cnt (upd s.disp d _) DState.inCall s.nd
+    simp only [cnt_split _ _ hd, cntEx_upd, upd_same] at this ⊢
+    omega
+  · have := hS.nwb
+    show s.nw ≤ t'.okCount + cnt (upd s.disp d _) DState.isSending s.nd + cnt (upd s.disp d _) DState.isBlocked s.nd
+    simp only [cnt_split _ _ hd, cntEx_upd, upd_same, hok] at this ⊢
+    omega
+
+/-- a worker starts or ends a job body: only `wrk w` and the acceptor's view of job `j` and thread `w` change -/
+theorem sim_wrkObs {s s' : State} {t t' : SState} {w j : Nat} {y : WState} (hI : Inv s) (hS : Sim s t) (hw : w < s.nw)
+    (hh : WState.holds j (s.wrk w) = true)
+    (hwrk : s'.wrk = upd s.wrk w y) (hdisp : s'.disp = s.disp) (hr1 : s'.limit = s.limit) (hr2 : s'.nd = s.nd)
+    (hr3 : s'.sendq = s.sendq) (hr4 : s'.nw = s.nw) (hr5 : s'.njobs = s.njobs)
+    (hlen : cnt s'.wrk WState.holdsAny s'.nw + s'.completed.length + s'.delivered.length + s'.crashed.length
+      = cnt s.wrk WState.holdsAny s.nw + s.completed.length + s.delivered.length + s.crashed.length)
+    (hlim : t'.limit = t.limit) (hphase : t'.phase = t.phase) (hdc : t'.dcur = t.dcur) (hok : t'.okCount = t.okCount)
+    (hinc : t'.inCalls = t.inCalls)
+    (hrun : ∀ j', j' ≠ j → t'.run j' = t.run j') (hwj : ∀ w', w' ≠ w → t'.wjob w' = t.wjob w')
+    (hy : WOK t' w y) : Sim s' t' := by
+  have hsole := sole_of_wrk hI hw hh
+  obtain ⟨o1, o2, o3, o4, o5⟩ := sim_others (t' := t') (uD := none) hS hsole
+    (fun x hx => ⟨hx, by simp⟩)
+    (fun j' hne => ⟨by rw [hphase], hrun j' hne⟩)
+    (fun d' _ => by rw [hdc])
+    (fun w' hne => hwj w' (by intro he; subst he; exact hne rfl))
+  have hjn := job_known_of_wrk hI hw hh
+  refine { limit := (hlim.trans hS.limit).trans hr1.symm, dok := ?_, qok := ?_, wok := ?_, wfree := ?_, fresh := ?_,
+           okc := ?_, inc := ?_, nwb := ?_ }
+  · intro d' hd'; rw [hr2] at hd'; rw [hdisp]; exact o1 d' hd' (by simp)
+  · intro x hx; rw [hr3] at hx; exact o2 x hx
+  · intro w' hw'
+    rw [hr4] at hw'
+    rw [hwrk]
+    by_cases he : w' = w
+    · subst he; rw [upd_same]; exact hy
+    · rw [upd_ne _ _ he]; exact o3 w' hw' (some_ne_some he)
+  · intro w' hw'
+    rw [hr4] at hw'
+    exact o4 w' hw' (by intro he; simp only [Option.some.injEq] at he; subst he; omega)
+  · intro j' hj'; rw [hr5] at hj'; exact o5 j' hj' (by omega)
+  · rw [hok, hlen]; exact hS.okc
+  · rw [hinc, hdisp, hr2]; exact hS.inc
+  · rw [hok, hdisp, hr2, hr4]; exact hS.nwb
+
+
+theorem takeOwned_length (d : Nat) (l : List Done) (e : Done) (rest : List Done) (h : takeOwned d l = some (e, rest)) :
+    l.length = rest.length + 1 := by
+  have := (takeOwned_countP (fun _ => true) d l e rest h).1
+  simpa using this
+
+/-- `counter` never exceeds the spawned threads plus the dispatchers about to spawn -/
+theorem counter_le_spawned {s : State} (hI : Inv s) : s.counter ≤ s.nw + cnt s.disp DState.isSpawning s.nd := by
+  cases hr : s.reserve
+  · rw [hI.counter_raw hr]; have := cnt_le s.wrk WState.counted s.nw; omega
+  · rw [hI.counter_res hr]; have := cnt_le s.wrk WState.alive s.nw; omega
+
+/-- past the limit check: the dispatcher has spawned, or is about to spawn, a thread for its job -/
+def DState.past : DState → Bool
+  | .spawning _ => true
+  | .sending _ => true
+  | .blocked => true
+  | _ => false
+
+theorem cnt_past {f : Nat → DState} : ∀ n : Nat,
+    cnt f DState.past n = cnt f DState.isSpawning n + cnt f DState.isSending n + cnt f DState.isBlocked n
+  | 0 => rfl
+  | n + 1 => by
+    rw [cnt_succ, cnt_succ, cnt_succ, cnt_succ, cnt_past n]
+    cases f n <;> simp [DState.past, DState.isSpawning, DState.isSending, DState.isBlocked] <;> omega
+
+theorem cntEx_mono {α : Type} (f : Nat → α) (p q : α → Bool) (i : Nat) (h : ∀ a, p a = true → q a = true) :
+    ∀ n : Nat, cntEx f p i n ≤ cntEx f q i n
+  | 0 => Nat.le_refl 0
+  | n + 1 => by
+    have ih := cntEx_mono f p q i h n
+    rw [cntEx, cntEx]
+    by_cases hn : n = i
+    · rw [if_pos hn, if_pos hn]; omega
+    · rw [if_neg hn, if_neg hn]
+      cases hp : p (f n)
+      · simp; omega
+      · rw [h _ hp]; omega
+
+/-- a dispatcher that is still before the limit check is inside a call but not past the check -/
+theorem past_lt_inCall {s : State} {d j : Nat} (hd : d < s.nd) (hj : s.disp d = .full j) :
+    cnt s.disp DState.past s.nd + 1 ≤ cnt s.disp DState.inCall s.nd := by
+  rw [cnt_split _ DState.past hd, cnt_split _ DState.inCall hd, hj]
+  have := cntEx_mono s.disp DState.past DState.inCall d
+    (by intro a ha; cases a <;> simp_all [DState.past, DState.inCall]) s.nd
+  simp [DState.past, DState.inCall]
+  omega
+
+theorem sim_step {s s' : State} {t : SState} {e : Event} (hI : Inv s) (hS : Sim s t) (h : step? s e = some s') :
+    ∃ t', runObs t (obsOf s e) = some t' ∧ Sim s' t' := by
+  cases e with
+  | submit d k => exact sim_submit hI hS h
+  | trySend d =>
+    obtain ⟨hd, j, hj, (⟨w, rest, hw, rfl⟩ | ⟨hw, rfl⟩)⟩ := doTrySend_some h
+    · obtain ⟨h1, h2⟩ := sim_hand hI hS hd hj (by simp [DState.holds]) (fun x => x) rfl rfl hw
+      exact ⟨_, by simp [obsOf, hj, hw, runObs, h1], h2⟩
+    · refine ⟨t, by simp [obsOf, hj, hw, runObs], ?_⟩
+      exact sim_dispSilent hS hd rfl rfl (sameRest_refl s) (by rw [hj]; exact fun x => x) (by rw [hj]; rfl)
+        (by rw [hj]; simp [DState.isSending, DState.isBlocked])
+  | load d =>
+    obtain ⟨hd, j, hj, (⟨h0, rfl⟩ | ⟨h0, hc, rfl⟩ | ⟨h0, hlt, _, rfl⟩ | ⟨h0, hlt, _, rfl⟩)⟩ := doLoad_some h
+    · have hdok := hS.dok d hd
+      rw [hj] at hdok
+      obtain ⟨c1, c2, c3⟩ := hdok
+      have hstep := step_retPanic c1 c2 c3 (hS.limit.trans h0)
+      refine ⟨tPanic t d j, by simp [obsOf, hj, h0, runObs, hstep], ?_⟩
+      refine sim_dispObs hI hS hd (by rw [hj]; simp [DState.holds]) (by rw [hj]; simp) rfl rfl rfl rfl
+        (fun j' hne => upd_ne _ _ hne) (fun d' hne => upd_ne _ _ hne) ⟨upd_same _ _ _, upd_same _ _ _, c3⟩ ?_
+        (by rw [hj]; simp [DState.isSending, DState.isBlocked])
+      have := hS.inc
+      rw [cnt_split _ _ hd, hj] at this
+      rw [hj]; simp [DState.inCall] at this ⊢; omega
+    · have hdok := hS.dok d hd
+      rw [hj] at hdok
+      obtain ⟨c1, c2, c3⟩ := hdok
+      have hinc := hS.inc
+      have hnwb := hS.nwb
+      have hcs := counter_le_spawned hI
+      have hjust : t.limit + 1 ≤ t.okCount + t.inCalls := by
+        have e1 := cnt_past (f := s.disp) s.nd
+        have e2 := past_lt_inCall hd hj
+        rw [hS.limit]
+        omega
+      have hstep := step_retBusy c1 c2 c3 (by rw [hS.limit]; omega) hjust
+      refine ⟨tBusy t d j, by simp [obsOf, hj, h0, hc, runObs, hstep], ?_⟩
+      refine sim_dispObs hI hS hd (by rw [hj]; simp [DState.holds]) (by rw [hj]; simp) rfl rfl rfl rfl
+        (fun j' hne => upd_ne _ _ hne) (fun d' hne => upd_ne _ _ hne) ⟨upd_same _ _ _, upd_same _ _ _, c3⟩ ?_
+        (by rw [hj]; simp [DState.isSending, DState.isBlocked])
+      rw [cnt_split _ _ hd, hj] at hinc
+      rw [hj]; simp [DState.inCall] at hinc ⊢; omega
+    · have hnle : ¬ s.limit ≤ s.counter := by omega
+      refine ⟨t, by simp [obsOf, hj, h0, hnle, runObs], ?_⟩
+      exact sim_dispSilent hS hd rfl rfl (sameRest_refl s) (by rw [hj]; exact fun x => x) (by rw [hj]; rfl)
+        (by rw [hj]; simp [DState.isSending, DState.isBlocked])
+    · have hnle : ¬ s.limit ≤ s.counter := by omega
+      refine ⟨t, by simp [obsOf, hj, h0, hnle, runObs], ?_⟩
+      exact sim_dispSilent hS hd rfl rfl (sameRest_refl s) (by rw [hj]; exact fun x => x) (by rw [hj]; rfl)
+        (by rw [hj]; simp [DState.isSending, DState.isBlocked])
+  | spawn d =>
+    obtain ⟨hd, j, hj, rfl⟩ := doSpawn_some h
+    refine ⟨t, by simp [obsOf, runObs], ?_⟩
+    refine { limit := hS.limit, dok := ?_, qok := hS.qok, wok := ?_, wfree := ?_, fresh := hS.fresh,
+             okc := ?_, inc := ?_, nwb := ?_ }
+    · intro d' hd'
+      by_cases he : d' = d
+      · subst he
+        show DOK _ d' (upd s.disp d' _ d')
+        rw [upd_same]
+        have := hS.dok d' hd; rw [hj] at this; exact this
+      · show DOK _ d' (upd s.disp d _ d')
+        rw [upd_ne _ _ he]; exact hS.dok d' hd'
+    · intro w hw
+      by_cases he : w = s.nw
+      · subst he
+        show WOK _ _ (upd s.wrk s.nw _ s.nw)
+        rw [upd_same]; exact hS.wfree s.nw (Nat.le_refl _)
+      · show WOK _ w (upd s.wrk s.nw _ w)
+        rw [upd_ne _ _ he]; exact hS.wok w (by have : w < s.nw + 1 := hw; omega)
+    · intro w hw; exact hS.wfree w (by have : s.nw + 1 ≤ w := hw; omega)
+    · have := hS.okc
+      show t.okCount = cnt (upd s.wrk s.nw _) WState.holdsAny (s.nw + 1) + _ + _ + _
+      rw [cnt_push]; simp [WState.holdsAny]; omega
+    · have := hS.inc
+      show t.inCalls = cnt (upd s.disp d _) DState.inCall s.nd
+      simp only [cnt_split _ _ hd, cntEx_upd, upd_same, hj] at this ⊢
+      exact this
+    · have := hS.nwb
+      show s.nw + 1 ≤ t.okCount + cnt (upd s.disp d _) DState.isSending s.nd + cnt (upd s.disp d _) DState.isBlocked s.nd
+      simp only [cnt_split _ _ hd, cntEx_upd, upd_same, hj] at this ⊢
+      simp [DState.isSending, DState.isBlocked] at this ⊢; omega
+  | send d =>
+    obtain ⟨hd, j, hj, (⟨w, rest, hw, rfl⟩ | ⟨hw, rfl⟩)⟩ := doSend_some h
+    · obtain ⟨h1, h2⟩ := sim_hand hI hS hd hj (by simp [DState.holds]) (fun x => x) rfl rfl hw
+      exact ⟨_, by simp [obsOf, hj, hw, runObs, h1], h2⟩
+    · refine ⟨t, by simp [obsOf, hj, hw, runObs], ?_⟩
+      have hdok := hS.dok d hd
+      rw [hj] at hdok
+      refine { limit := hS.limit, dok := ?_, qok := ?_, wok := hS.wok, wfree := hS.wfree, fresh := hS.fresh,
+               okc := hS.okc, inc := ?_, nwb := ?_ }
+      · intro d' hd'
+        by_cases he : d' = d
+        · subst he
+          show DOK _ d' (upd s.disp d' _ d')
+          rw [upd_same]; trivial
+        · show DOK _ d' (upd s.disp d _ d')
+          rw [upd_ne _ _ he]; exact hS.dok d' hd'
+      · intro x hx
+        rcases List.mem_append.mp hx with h1 | h1
+        · exact hS.qok x h1
+        · simp only [List.mem_singleton] at h1; subst h1; exact hdok
+      · have := hS.inc
+        show t.inCalls = cnt (upd s.disp d _) DState.inCall s.nd
+        simp only [cnt_split _ _ hd, cntEx_upd, upd_same, hj] at this ⊢
+        exact this
+      · have := hS.nwb
+        show s.nw ≤ t.okCount + cnt (upd s.disp d _) DState.isSending s.nd + cnt (upd s.disp d _) DState.isBlocked s.nd
+        simp only [cnt_split _ _ hd, cntEx_upd, upd_same, hj] at this ⊢
+        simp [DState.isSending, DState.isBlocked] at this ⊢; omega
+  | retry d =>
+    obtain ⟨hd, j, hj, rfl⟩ := doRetry_some h
+    have hdok := hS.dok d hd
+    rw [hj] at hdok
+    obtain ⟨c1, c2, c3⟩ := hdok
+    have hstep := step_call (d := d) c1 (.inr c2) c3
+    refine ⟨tCall t d j, by simp [obsOf, hj, runObs, hstep], ?_⟩
+    refine sim_dispObs hI hS hd (by rw [hj]; simp [DState.holds]) (by rw [hj]; simp) rfl rfl rfl rfl
+      (fun j' hne => upd_ne _ _ hne) (fun d' hne => upd_ne _ _ hne) ⟨upd_same _ _ _, upd_same _ _ _, c3⟩ ?_
+      (by rw [hj]; simp [DState.isSending, DState.isBlocked])
+    rw [hj]; simp [DState.inCall]
+  | giveUp d =>
+    obtain ⟨hd, j, (⟨hj, rfl⟩ | ⟨hj, rfl⟩)⟩ := doGiveUp_some h
+    · refine ⟨t, by simp [obsOf, runObs], ?_⟩
+      exact sim_dispSilent hS hd rfl rfl (sameRest_refl s) (by rw [hj]; exact fun x => x.1) (by rw [hj]; rfl)
+        (by rw [hj]; simp [DState.isSending, DState.isBlocked])
+    · refine ⟨t, by simp [obsOf, runObs], ?_⟩
+      exact sim_dispSilent hS hd rfl rfl (sameRest_refl s) (by rw [hj]; exact fun x => x.1) (by rw [hj]; rfl)
+        (by rw [hj]; simp [DState.isSending, DState.isBlocked])
+  | reap d =>
+    obtain ⟨e, rest, he, rfl⟩ := doReap_some h
+    refine ⟨t, by simp [obsOf, runObs], ?_⟩
+    have hl := takeOwned_length d _ _ _ he
+    exact { limit := hS.limit, dok := hS.dok, qok := hS.qok, wok := hS.wok, wfree := hS.wfree, fresh := hS.fresh,
+            okc := by have := hS.okc; show t.okCount = _ + rest.length + (e :: s.delivered).length + _; simp; omega,
+            inc := hS.inc, nwb := hS.nwb }
+  | count w =>
+    obtain ⟨hw, hs, (⟨_, rfl⟩ | ⟨_, rfl⟩)⟩ := doCount_some h <;>
+    · refine ⟨t, by simp [obsOf, runObs], ?_⟩
+      exact sim_wrkSilent hS hw rfl rfl (sameRest_refl s) (by rw [hs]; exact fun x => x) (by rw [hs]; rfl)
+  | recv w =>
+    obtain ⟨hw, hs, (⟨d, j, rest, hq, rfl⟩ | ⟨hq, rfl⟩)⟩ := doRecv_some h
+    · obtain ⟨hd, hb⟩ := hI.sendq_blocked d j (by rw [hq]; simp)
+      obtain ⟨c1, c2, c3⟩ := hS.qok (d, j) (by rw [hq]; simp)
+      have hwok := hS.wok w hw
+      rw [hs] at hwok
+      have hb1 := step_begin (w := w) (show (t.phase j).startable = true by rw [c2]; rfl) c3 hwok
+      have hb2 : Spec.step (tBegin t w j) (.retOk d j) = some (tRetOk (tBegin t w j) d j) := step_retOk c1 c2
+      refine ⟨tRetOk (tBegin t w j) d j, by simp [obsOf, hs, hq, runObs, hb1, hb2], ?_⟩
+      have hsole := ((sole_of_sendq hI hq).weakenD d).weakenW w
+      have hnd := hI.sendq_nodup
+      rw [hq, List.map_cons, List.nodup_cons] at hnd
+      obtain ⟨o1, o2, o3, o4, o5⟩ := sim_others (t' := tRetOk (tBegin t w j) d j) hS hsole
+        (fun x hx => ⟨by rw [hq]; exact List.mem_cons_of_mem _ hx, by
+          intro he
+          simp only [Option.some.injEq] at he
+          exact hnd.1 (List.mem_map.mpr ⟨x, hx, he⟩)⟩)
+        (fun j' hne => ⟨upd_ne _ _ hne, upd_ne _ _ hne⟩)
+        (fun d' hne => upd_ne _ _ (by intro he; subst he; exact hne rfl))
+        (fun w' hne => upd_ne _ _ (by intro he; subst he; exact hne rfl))
+      have hjn : j < s.njobs := by
+        have hp := hI.place j
+        unfold holders at hp
+        rw [hq, List.countP_cons] at hp
+        simp only [beq_self_eq_true, if_true] at hp
+        split at hp
+        · assumption
+        · omega
+      refine { limit := hS.limit, dok := ?_, qok := o2, wok := ?_, wfree := ?_, fresh := ?_, okc := ?_, inc := ?_, nwb := ?_ }
+      · intro d' hd'
+        by_cases he : d' = d
+        · subst he
+          show DOK _ d' (upd s.disp d' _ d')
+          rw [upd_same]; exact upd_same _ _ _
+        · show DOK _ d' (upd s.disp d _ d')
+          rw [upd_ne _ _ he]; exact o1 d' hd' (some_ne_some he)
+      · intro w' hw'
+        by_cases he : w' = w
+        · subst he
+          show WOK _ w' (upd s.wrk w' _ w')
+          rw [upd_same]
+          exact ⟨upd_same _ _ _, upd_same _ _ _⟩
+        · show WOK _ w' (upd s.wrk w _ w')
+          rw [upd_ne _ _ he]; exact o3 w' hw' (some_ne_some he)
+      · intro w' hw'
+        exact o4 w' hw' (by intro he; simp only [Option.some.injEq] at he; subst he; exact absurd hw (by have : s.nw ≤ w' := hw'; omega))
+      · intro j' hj'; exact o5 j' hj' (by have : s.njobs ≤ j' := hj'; omega)
+      · have := hS.okc
+        show t.okCount + 1 = cnt (upd s.wrk w _) WState.holdsAny s.nw + _ + _ + _
+        simp only [cnt_split _ _ hw, cntEx_upd, upd_same, hs] at this ⊢
+        simp [WState.holdsAny] at this ⊢; omega
+      · have := hS.inc
+        show t.inCalls - 1 = cnt (upd s.disp d _) DState.inCall s.nd
+        simp only [cnt_split _ _ hd, cntEx_upd, upd_same, hb] at this ⊢
+        simp [DState.inCall] at this ⊢; omega
+      · have := hS.nwb
+        show s.nw ≤ t.okCount + 1 + cnt (upd s.disp d _) DState.isSending s.nd + cnt (upd s.disp d _) DState.isBlocked s.nd
+        simp only [cnt_split _ _ hd, cntEx_upd, upd_same, hb] at this ⊢
+        simp [DState.isSending, DState.isBlocked] at this ⊢; omega
+    · refine ⟨t, by simp [obsOf, hs, hq, runObs], ?_⟩
+      exact sim_wrkSilent hS hw rfl rfl (sameRest_refl s) (by rw [hs]; exact fun x => x) (by rw [hs]; rfl)
+  | wake w =>
+    obtain ⟨hw, j, hs, rfl⟩ := doWake_some h
+    have hwok := hS.wok w hw
+    rw [hs] at hwok
+    obtain ⟨c1, c2, c3⟩ := hwok
+    have hb1 := step_begin (w := w) (show (t.phase j).startable = true by rw [c1]; rfl) c2 c3
+    refine ⟨tBegin t w j, by simp [obsOf, hs, runObs, hb1], ?_⟩
+    refine sim_wrkObs hI hS hw (by rw [hs]; simp [WState.holds]) rfl rfl rfl rfl rfl rfl rfl ?_ rfl rfl rfl rfl rfl
+      (fun j' hne => upd_ne _ _ hne) (fun w' hne => upd_ne _ _ hne) ⟨upd_same _ _ _, upd_same _ _ _⟩
+    show cnt (upd s.wrk w _) WState.holdsAny s.nw + _ + _ + _ = _
+    simp only [cnt_split _ _ hw, cntEx_upd, upd_same, hs]
+    simp [WState.holdsAny]
+  | timeout w =>
+    obtain ⟨hw, hs, rfl⟩ := doTimeout_some h
+    refine ⟨t, by simp [obsOf, runObs], ?_⟩
+    exact sim_wrkSilent hS hw rfl rfl (sameRest_refl s) (by rw [hs]; exact fun x => x) (by rw [hs]; rfl)
+  | finish w =>
+    obtain ⟨hw, j, hs, (⟨_, rfl⟩ | ⟨_, rfl⟩)⟩ := doFinish_some h
+    all_goals
+      have hwok := hS.wok w hw
+      rw [hs] at hwok
+      obtain ⟨c1, c2⟩ := hwok
+      have hb1 := step_fin c1 c2
+      refine ⟨tFin t w j, by simp [obsOf, hs, runObs, hb1], ?_⟩
+      refine sim_wrkObs hI hS hw (by rw [hs]; simp [WState.holds]) rfl rfl rfl rfl rfl rfl rfl ?_ rfl rfl rfl rfl rfl
+        (fun j' hne => upd_ne _ _ hne) (fun w' hne => upd_ne _ _ hne) (upd_same _ _ _)
+      show cnt (upd s.wrk w _) WState.holdsAny s.nw + _ + _ + _ = _
+      simp only [cnt_split _ _ hw, cntEx_upd, upd_same, hs]
+      simp [WState.holdsAny]
+      try omega
+  | exit w =>
+    obtain ⟨hw, hs, rfl⟩ := doExit_some h
+    refine ⟨t, by simp [obsOf, runObs], ?_⟩
+    exact sim_wrkSilent hS hw rfl rfl (sameRest_refl s) (by rw [hs]; exact fun x => x) (by rw [hs]; rfl)
+
+
+theorem sim_init (limit nd : Nat) (reserve : Bool) : Sim (init limit nd reserve) (Spec.sinit limit) := by
+  have z1 : cnt (fun _ : Nat => DState.idle) DState.inCall nd = 0 := cnt_zero_of _ _ _ (fun _ _ => rfl)
+  refine { limit := rfl, dok := fun d _ => rfl, qok := ?_, wok := ?_, wfree := fun _ _ => rfl,
+           fresh := fun _ _ => ⟨rfl, rfl⟩, okc := rfl, inc := ?_, nwb := Nat.zero_le _ }
+  · intro x hx; cases hx
+  · intro w hw; exact absurd hw (Nat.not_lt_zero _)
+  · show 0 = cnt (fun _ : Nat => DState.idle) DState.inCall nd
+    rw [z1]
+
+theorem runObs_append (t : SState) : ∀ (a b : List Obs), runObs t (a ++ b) = (runObs t a).bind (fun t' => runObs t' b)
+  | [], b => rfl
+  | o :: a, b => by
+    show runObs t (o :: (a ++ b)) = _
+    rw [runObs, runObs]
+    cases Spec.step t o with
+    | none => rfl
+    | some t1 => exact runObs_append t1 a b
+
+/-- every schedule of the model projects to a history the acceptor accepts -/
+theorem sim_run : ∀ {evs : List Event} {s s' : State} {t : SState}, Inv s → Sim s t → run? s evs = some s' →
+    ∃ t', runObs t (trace s evs) = some t' ∧ Sim s' t'
+  | [], s, s', t, _, hS, h => by
+    simp [run?] at h; subst h
+    exact ⟨t, rfl, hS⟩
+  | e :: es, s, s', t, hI, hS, h => by
+    unfold run? at h
+    split at h
+    · rename_i s1 h1
+      obtain ⟨t1, ht1, hS1⟩ := sim_step hI hS h1
+      obtain ⟨t2, ht2, hS2⟩ := sim_run (inv_step hI h1) hS1 h
+      refine ⟨t2, ?_, hS2⟩
+      rw [trace, h1]
+      show runObs t (obsOf s e ++ trace s1 es) = some t2
+      rw [runObs_append, ht1]
+      exact ht2
+    · cases h
+
 end Compio.Asyncify
